@@ -71,6 +71,31 @@ def run(ctx):
                 if err > 2e-5 and not out["viol"]:
                     out["viol"].append(("C09:prog:share_after_renormalisation", "a phase space saved right after the periodic renormalisation does not integrate to the bunch's share",
                                         dict(options=o, cmd=out["cmd"], step=int(step), bunch=b, share=sh, integral=float(I[b]), total=float(I.sum()))))
+        # reported moments of every bunch = moments of that bunch's own stored profiles (records that are not renormalised in that step,
+        # so that profile, charge and moments describe one and the same grid)
+        tsteps = np.rint(h["/Info/AxisValues_t"].astype(np.float64) * P["steps"]).astype(int)
+        pe = h["/Info/AxisValues_E"].astype(np.float64)
+        for (nm, prof_ds, ax, mean_ds, rms_ds) in (("position", "/BunchProfile/data", z, "/BunchPosition/data", "/BunchLength/data"),
+                                                   ("energy", "/EnergyProfile/data", pe, "/EnergyAverage/data", "/EnergySpread/data")):
+            pr, mr, sr = h[prof_ds].astype(np.float64), h[mean_ds].astype(np.float64), h[rms_ds].astype(np.float64)
+            for rec, step in enumerate(tsteps):
+                if step % rn == 0 or rec >= pr.shape[0] or not np.all(np.isfinite(pr[rec])):
+                    continue
+                for b in range(pr.shape[1]):
+                    s0 = pr[rec, b].sum()
+                    if not (s0 > 0):
+                        continue
+                    m1 = float((pr[rec, b] * ax).sum() / s0)
+                    v = float((pr[rec, b] * (ax - m1) ** 2).sum() / s0)
+                    if not (v > 1e-6):
+                        continue
+                    sd = v ** 0.5
+                    out["moments"] = out.get("moments", 0) + 1
+                    e = max(abs(mr[rec, b] - m1), abs(sr[rec, b] - sd)) / (2e-3 * sd + 1e-4)
+                    out["worst_m"] = max(out.get("worst_m", 0.0), e)
+                    if e > 1 and not any(k.startswith("C09:prog:moment") for k, _, _ in out["viol"]):
+                        out["viol"].append(("C09:prog:moment:" + nm + (":bunch>0" if b else ""), "a bunch's reported mean/width in the results file is not the first/second moment of that bunch's own recorded profile",
+                                            dict(options=o, cmd=out["cmd"], step=int(step), bunch=b, reported_mean=float(mr[rec, b]), mean_of_profile=m1, reported_width=float(sr[rec, b]), width_of_profile=sd)))
         shutil.rmtree(d, ignore_errors=True)
         return out
 
@@ -84,8 +109,12 @@ def run(ctx):
         if res["drift"] > 1e-4:
             ctx.ev("program_runs_with_charge_drift_between_renormalisations")
         ctx.residual("prog.share_err_after_renormalisation", res["worst"], 2e-5)
+        ctx.ev("program_bunch_moments_checked", res.get("moments", 0))
+        if "worst_m" in res:
+            ctx.residual("prog.moment_vs_own_profile_over_tol", res["worst_m"], 1.0)
         for key, what, det in res["viol"]:
             ctx.violation(key, what, det)
     ctx.min_events["program_runs"] = max(3, n // 2)
     ctx.min_events["program_renormalised_records_checked"] = 20
+    ctx.min_events["program_bunch_moments_checked"] = 100
     ctx.min_events["program_runs_with_charge_drift_between_renormalisations"] = 1
